@@ -40,6 +40,14 @@ def matches(n, *sfx):
     return False
 
 
+def _mentions_local(r, l):
+    """does rvalue r read local l"""
+    for x in ([r.get("a"), r.get("b")] + list(r.get("ops") or ())):
+        if isinstance(x, dict) and x.get("k") in ("copy", "move") and x["p"]["l"] == l:
+            return True
+    return isinstance(r.get("p"), dict) and r["p"]["l"] == l
+
+
 def _key_order(k):
     return (str(k[0]), str(k[1]), tuple(str(x) for x in k[2:]))
 
@@ -91,8 +99,12 @@ class Analyzer(Interp):
         self.visited = set()       # (fn name, block) executed with a non-bottom state
         self.nonconverged = set()
         self._touch = None
+        self.in_region = 0
         self._enums = None
         self.observed_calls = {}
+        self.ret_observed = {}          # fn name -> (lo, hi) of its integer result (from its context-free analysis)
+        self.ret_ranges = {}            # assumed from the previous round
+        self.ret_used = set()
         self.observed = {}              # (callee name, param index) -> [lo, hi] hull over the non-inlined call sites seen
         self.monotone = []              # (adt suffix, field): sequences that most functions only append to
         self._shrinkers = {}
@@ -173,6 +185,22 @@ class Analyzer(Interp):
         jsyms = {}
         for key in sorted(keys, key=_key_order):
             vals = [s.env.get(key, MISSING) for s in sides]
+            if any(v is MISSING for v in vals) and key in self.ktype and any(v is not MISSING and v[0] in ("int", "seq") for v in vals):
+                # never touched on some path: there it still has its entry value (what a read would produce)
+                for si, v in enumerate(vals):
+                    if v is MISSING:
+                        d = self.default(sides[si], key, self.ktype[key])
+                        if d is not TOP and d[0] in ("int", "seq"):
+                            sides[si].env[key] = d
+                            vals[si] = d
+            if any(v is not MISSING and v[0] == "havoc" for v in vals) and key in self.ktype and any(v is not MISSING and v[0] in ("int", "seq") for v in vals):
+                # forgotten on some path: some unknown value of its type (what a read would produce there)
+                for si, v in enumerate(vals):
+                    if v is not MISSING and v[0] == "havoc":
+                        self.cur = "%s:h%d" % (tag, si)
+                        d = self.read_key(sides[si], key, self.ktype[key])
+                        if d is not TOP and d[0] in ("int", "seq"):
+                            vals[si] = d
             if key == CB_KEY or key == CT_KEY:
                 kind = "cbs" if key == CB_KEY else "cts"
                 sets = [v[1] if v is not MISSING and v[0] == kind else frozenset() for v in vals]
@@ -402,7 +430,11 @@ class Analyzer(Interp):
         """one abstract pass over the loop body starting from the loop-head state; the states arriving back at
         `head` are returned separately per path (paths are merged only when their states are equal, or at inner
         loop heads, or beyond `cap` states at one block)"""
-        _exits, back = self._worklist(fn, frame, head, st_head, region=body, stop=head, nojoin_cap=cap)
+        self.in_region += 1
+        try:
+            _exits, back = self._worklist(fn, frame, head, st_head, region=body, stop=head, nojoin_cap=cap)
+        finally:
+            self.in_region -= 1
         return back
 
     def _worklist(self, fn, frame, start, st0, region=None, stop=None, nojoin_cap=0):
@@ -487,7 +519,8 @@ class Analyzer(Interp):
                     pending.add(succ)
         if guard >= 20000:
             self.nonconverged.add(fn.name)
-        if region is None:
+        if region is None and not self.in_region:
+            # (states computed inside a path-separated region pass describe single paths: never recorded)
             self.loop_states[(fn.name, frame)] = (instate, edge)
         out = []
         for b in sorted(exits):
@@ -861,6 +894,8 @@ class Analyzer(Interp):
             for c in local_targets[:1]:
                 self.assume_invariants_after_call(fn, frame, b, t, st, c)
         self.set_dest(st, frame, t, None)
+        if all_local:
+            self.apply_ret_range(st, frame, t, [c.name for c in local_targets])
         if tgt is None:
             return []
         return [(tgt, st, None)]
@@ -922,12 +957,20 @@ class Analyzer(Interp):
                             if rp and rp[-1][0] == "field" and rp[-1][2] == field and (rp[-1][4] or "").endswith(adt_suffix):
                                 # the borrow must be consumed by a grow-only method as its receiver
                                 tmp = s["p"]["l"]
-                                ok = False
-                                tt = f.term(b)
-                                if tt["k"] == "call" and tt["args"] and tt["args"][0].get("k") == "move" and tt["args"][0]["p"]["l"] == tmp \
-                                        and matches(nm(tt), *self.GROW_ONLY_METHODS):
-                                    ok = True
-                                if not ok:
+                                # every use of the borrow is as the receiver of a grow-only method
+                                uses = good = 0
+                                for b2 in range(f.n):
+                                    for s2 in f.stmts(b2):
+                                        if s2["k"] == "assign" and s2 is not s and _mentions_local(s2["r"], tmp):
+                                            uses += 1
+                                    tt = f.term(b2)
+                                    if tt["k"] == "call":
+                                        for ai, a in enumerate(tt["args"]):
+                                            if a.get("k") in ("move", "copy") and a["p"]["l"] == tmp:
+                                                uses += 1
+                                                if ai == 0 and matches(nm(tt), *self.GROW_ONLY_METHODS):
+                                                    good += 1
+                                if uses == 0 or uses != good:
                                     bad = True
                 if bad:
                     sh.add(f.name)
@@ -979,6 +1022,7 @@ class Analyzer(Interp):
         self.assume_invariants_after_call(fn, frame, b, t, st, callee)
         rv = self.default_noentry(st, dty)
         self.set_dest(st, frame, t, rv)
+        self.apply_ret_range(st, frame, t, [callee.name])
         self.assume_invariant_on_result(fn, frame, t, st)
         return [(tgt, st, None)]
 
@@ -1354,7 +1398,44 @@ class Analyzer(Interp):
         finally:
             self.stack.pop()
         self.check_invariants_at_exit(fn, frame, exits)
+        # interval of the integer result over all exits of this context-free analysis: valid for every call
+        if is_int_ty(fn.local_ty(0)):
+            lo_all, hi_all = None, None
+            first = True
+            tlo, thi = TYPE_RANGE[fn.local_ty(0)]
+            for (s2, rv) in exits:
+                lo = hi = None
+                if rv is not None and rv[0] == "int":
+                    lo, hi = s2.store.interval(rv[1])
+                    for cand in (1 << 62, 1 << 63):
+                        if (hi is None or hi > cand) and s2.store.entails(rv[1].addc(-cand)):
+                            hi = cand
+                lo = tlo if lo is None else max(lo, tlo)
+                hi = thi if hi is None else min(hi, thi)
+                lo_all = lo if first else min(lo_all, lo)
+                hi_all = hi if first else max(hi_all, hi)
+                first = False
+            if not first:
+                self.ret_observed[fn.name] = (lo_all, hi_all)
         return exits
+
+    def apply_ret_range(self, st, frame, t, targets):
+        """integer result of a call that was not inlined: the hull of the result ranges its possible targets showed
+        in the previous round (each was analysed for all inputs)"""
+        if not targets or not is_int_ty(t["dest"]["ty"]):
+            return
+        rs = [self.ret_ranges.get(x) for x in targets]
+        if any(r is None for r in rs):
+            return
+        lo, hi = min(r[0] for r in rs), max(r[1] for r in rs)
+        key, left = self.resolve(st, frame, t["dest"])
+        if left:
+            return
+        v = st.env.get(key)
+        if v is not None and v[0] == "int":
+            st.store.add(Lin.const(lo).sub(v[1]))
+            st.store.add(v[1].addc(-hi))
+            self.ret_used.update(targets)
 
     def run(self, roots):
         self.pending_standalone = set(roots)
